@@ -19,7 +19,8 @@ Fatal     == {"ErrNodeGone", "ErrNodeNotStarted", "ErrNodeNoSuccessor", "ErrNode
               "ErrKVSimpleConflict", "ErrKVPrefixConflict", "ErrKVLeaseConflict", "ErrKVLeaseExpired",
               "ErrKVLeaseInvalidTTL", "ErrKVHashFnChanged"}
 Defined   == Retryable \cup Fatal
-Origins   == Defined \cup {"deadline", "arbitrary"}   \* context.DeadlineExceeded, errors.New(...)
+Origins   == Defined \cup {"deadline", "arbitrary", "lookalike"}   \* context.DeadlineExceeded, errors.New(...), and an unknown error whose
+                                                                 \* TEXT ends with the text of a retryable DHT error / the deadline (flattened with %v)
 
 (* which wrapper the handler of chord/server_rpc.go applies *)
 KVMethods    == {"Put", "Get", "Delete", "PrefixAppend", "PrefixList", "PrefixContains", "PrefixRemove",
@@ -51,7 +52,7 @@ ImplObs(c) == [clientNil   |-> FALSE,
 (* the property, over an observation o = [clientNil, clientIs, clientRetry, originRetry] of both sides *)
 SameOk(c, o)    == c.err \in Defined => o.clientIs            \* recognised as the same error
 RetryOk(c, o)   == o.clientRetry = o.originRetry              \* retryable at the caller iff retryable at the origin
-UnknownOk(c, o) == c.err = "arbitrary" => ~o.clientRetry      \* unknown errors stay non-retryable
+UnknownOk(c, o) == c.err \in {"arbitrary", "lookalike"} => ~o.clientRetry      \* unknown errors stay non-retryable
 Decl(c, o) == ~o.clientNil /\ SameOk(c, o) /\ RetryOk(c, o) /\ UnknownOk(c, o)
 
 -------------------------------------------------------------------------------
